@@ -88,6 +88,7 @@ pub struct OpRec {
     pub blocks_inside: u64,
     pub handle: Option<usize>,
     pub waiting_gate: Option<usize>,
+    pub waiting_gate_alt: Option<usize>,
     pub nested_in: Option<u32>,
     pub injects_panic: bool,
     pub blocking_steps: bool,
@@ -255,6 +256,7 @@ pub struct Cover {
     pub pipe_backpressure: u64,
     pub out_pending: u64,
     pub late_refs: u64,
+    pub select_left_waker: u64,
 }
 
 thread_local! {
@@ -355,6 +357,7 @@ impl World {
                 blocks_inside: 0,
                 handle: None,
                 waiting_gate: None,
+                waiting_gate_alt: None,
                 nested_in: None,
                 injects_panic: false,
                 blocking_steps: false,
@@ -375,7 +378,7 @@ impl World {
                 for s in b {
                     match s {
                         Step::Panic => ops[op.id as usize].injects_panic = true,
-                        Step::BlockOn(_) | Step::AwaitGate(_) => ops[op.id as usize].blocking_steps = true,
+                        Step::BlockOn(_) | Step::AwaitGate(_) | Step::AwaitAny(_, _) => ops[op.id as usize].blocking_steps = true,
                         Step::Nested(n) => fill(ops, n, phase, Some(op.id)),
                         _ => {}
                     }
